@@ -866,5 +866,20 @@ m('rmw-increment-encodes-into-previous-cell','C13',BT,
 			}
 			binary.BigEndian.PutUint64(val, uint64(v))
 			newCell = &btpb.Cell{TimestampMicros: ts, Value: val}''','R82/','the previous version is rewritten with the new sum')
+# ---- C20 / R83: API-level errors are JSON
+m('delete-answers-plain-text-error','C20',GCS,
+  '''	if err != nil {
+		g.gapiError(w, httpStatusCodeOf(err), err.Error())
+		return
+	}
+
+	w.WriteHeader(http.StatusNoContent)
+}''','''	if err != nil {
+		http.Error(w, err.Error(), httpStatusCodeOf(err))
+		return
+	}
+
+	w.WriteHeader(http.StatusNoContent)
+}''','R83/','the delete handler answers its errors as text/plain')
 json.dump(M, open('/verif/mutants.json','w'), indent=1)
 print(len(M),'mutants')
